@@ -364,10 +364,17 @@ def rule_C1(ctx):
         f = prog.fn(fname)
         local_cls = {}
 
+        plain = {}
+        for st in ast.walk(f.node):
+            if isinstance(st, ast.Assign) and isinstance(st.targets[0], ast.Name) and isinstance(st.value, ast.Attribute) and u(st.value.value) == "samplers":
+                plain.setdefault(st.targets[0].id, []).append(st.value.attr)
+
         def fields_of(v):
-            """Holder fields an expression can denote: `samplers.x`, or `samplers.x if c else samplers.y`."""
+            """Holder fields an expression can denote: `samplers.x`, a local bound to one, or `a if c else b` of those."""
             if isinstance(v, ast.Attribute) and u(v.value) == "samplers":
                 return [v.attr]
+            if isinstance(v, ast.Name) and len(plain.get(v.id, [])) == 1:
+                return list(plain[v.id])
             if isinstance(v, ast.IfExp):
                 a, b = fields_of(v.body), fields_of(v.orelse)
                 return a + b if a and b else []
